@@ -404,6 +404,16 @@ def corpus(nl='\n'):
             yield cname, tpl % b.replace('\n', nl)
     for src in ('$x_#text(red)[y]$\n', '$mat(#box(width: 1em)[y], 2)$\n', '$a^#f(1)[b] / #g(2)[c]$\n', '$sqrt(#h(1em)[z])$\n', '$#f(1)[y]$\n', '#let v = #f(1)\n' if False else '$ #(1 + 2) $\n'):
         yield 'math-hash', src
+    # expressions that get wrapped in parentheses / braces when broken (optional_paren, convert_expr_with_optional_paren)
+    for src in ('#let f = x => y = aaaaaaaaaaaa * bbbbbbbbbbbbbbb * ccccccccccccc\n', '#items.map(it => total += it.price * it.count * (1 - it.discount))\n',
+                '#let same = (a, b) => return a.len() > 0 and b.len() > 0 and a.first() == b.first()\n', '#{\n  let pick = it => let v = it.width / 2 - margin.left - margin.right\n}\n',
+                '#let h = x => aaaaaaaa + bbbbbbbbb + ccccccccc\n', '#let a = bbbbbbbbb + ccccccccc + ddddddddd\n', '#if aaaaaa and bbbbbbb and ccccccc { }\n',
+                '#while aaaaaa or bbbbbbb or ccccccc { }\n', '#for x in aaaaaaa + bbbbbbbb + ccccccc { }\n', '#{\n  return aaaaaaa + bbbbbbbb + ccccccc\n}\n',
+                '#show: it => it.a + it.b + it.c\n', '#let g = x => if x.a and x.b { 1 } else { 2 }\n', '#let k = not aaaaaaa and not bbbbbbb\n',
+                '#{\n  x = aaaaaaa + bbbbbbbb + ccccccc\n}\n', '#{\n  x += aaaaaaa * bbbbbbbb * ccccccc\n}\n', '#let f(x) = x.a + x.b + x.c\n',
+                '#context aaaaaaa + bbbbbbbb + ccccccc\n', '#f(k: aaaaaaa + bbbbbbbb + ccccccc)\n', '#(k: aaaaaaa + bbbbbbbb + ccccccc)\n'):
+        if nl == '\n':
+            yield 'wrapped', src
     if nl != '\n':
         for src in ('// c%sa\n', '#let x = 1 // c%s#let y = 2\n', '#{%s  let a = 1 // c%s  let b = 2%s}\n', '$ x // c%s y $\n', '#f(1, // c%s 2)\n'):
             yield 'non-LF-newline', src.replace('%s', nl)
